@@ -187,10 +187,10 @@ def c06_enum(rng, full):
     for nconn in range(0, 4):
         fin_choices = list(itertools.product(grid, repeat=nconn))
         if not full and nconn == 3:
-            fin_choices = [f for f in fin_choices if rng.random() < 0.25]
+            fin_choices = [f for f in fin_choices if rng.random() < 0.5]
         for fins in fin_choices:
             for to in timeouts:
-                if not full and nconn >= 2 and rng.random() < 0.5:
+                if not full and nconn == 3 and rng.random() < 0.5:
                     continue
                 for kind in ("sg", "sf"):
                     if kind == "sf" and (to not in (0, 2000) or rng.random() < 0.5):
